@@ -20,7 +20,10 @@ def streams(rng, secret):
     t_ping = int(1000 * (1000.0 + 0.0371))
     out['status'] = dict(kind='status', pv=757, conns=[([proto.frame(0, proto.string(json.dumps(status))), proto.frame(1, struct.pack('>q', t_ping))], None)])
     login_plain = [proto.frame(ids.login_success, ids.b_login_success()), proto.frame(ids.keep_alive, ids.b_keep_alive(77))]
-    out['status+login'] = dict(kind='connect', allowed=[340, 757], pv=757,
+    out['status+login'] = dict(kind='connect', allowed=[340, 757], pv=757, initial=340,
+                               conns=[([proto.frame(0, proto.string(json.dumps(status)))], None), (login_plain, None)])
+    # the default version need not be one of the allowed ones
+    out['status+login/default-outside'] = dict(kind='connect', allowed=[340, 757], pv=757, initial=498,
                                conns=[([proto.frame(0, proto.string(json.dumps(status)))], None), (login_plain, None)])
     frames, cut = c10.build_server(ids, [('comp', 64), ('plugin', 5, 'a:b', b'xyz'), ('success',), ('ka', 1), ('ka', 2)])
     big = proto.frame(ids.chat, proto.string('{"text":"%s"}' % ('z' * 200)) + b'\x00' + bytes(16), 64)
@@ -70,7 +73,7 @@ def run(chk):
         servers = []
         for j, w in enumerate(wires):
             if j < ci:
-                servers.append(sim.Server([w], end='idle' if name != 'status+login' else 'idle'))
+                servers.append(sim.Server([w], end='idle'))
             elif j == ci:
                 servers.append(sim.Server([w[:k]] if rng.random() < 0.5 or k < 2 else [w[:k // 2], w[k // 2:k]], end='eof'))
             else:
@@ -80,7 +83,7 @@ def run(chk):
         delivered, excs = [], []
         try:
             conn = Connection('localhost', 25565, username='user', allowed_versions=sc.get('allowed', [sc['pv']]),
-                              initial_version=340 if name == 'status+login' else None, handle_exception=lambda e, i: excs.append(e))
+                              initial_version=sc.get('initial'), handle_exception=lambda e, i: excs.append(e))
             conn.register_packet_listener(lambda p: delivered.append((net.nconn - 1, p.id)), Packet, early=True)
             import builtins
             rp = builtins.print
@@ -114,7 +117,7 @@ def run(chk):
                 what = '%d packets delivered to listeners from this connection; %d frames are wholly contained in the prefix' % (len(got), exp_n)
             else:
                 ended_by_script = (name == 'play' and complete == len(frames)) or (name == 'status' and complete == len(frames))
-                if name == 'status+login' and ci == 0 and complete == 0:
+                if name.startswith('status+login') and ci == 0 and complete == 0:
                     # unanswered status query: the documented fallback - a login connection with the default version
                     hs = [s for s in servers[1:] if s.sends]
                     if not hs:
@@ -122,9 +125,9 @@ def run(chk):
                     else:
                         import c09
                         h = c09.parse_conn(None, b''.join(hs[0].sends))
-                        if h[0] != 340 or h[3] != 2:
-                            what = 'fallback connection uses protocol %s next_state %s (default is 340)' % (h[0], h[3])
-                elif name == 'status+login' and ci == 0:
+                        if h[0] != sc['initial'] or h[3] != 2:
+                            what = 'fallback connection uses protocol %s next_state %s (the default is %d)' % (h[0], h[3], sc['initial'])
+                elif name.startswith('status+login') and ci == 0:
                     pass          # the status reply was complete: negotiation proceeds (C09)
                 elif ended_by_script:
                     if excs:
